@@ -272,13 +272,27 @@ class Contexts:
             d['e'] = self.simple(b, scope)
 
 
+def initial_assignments(b, rnd, names, prob):
+    """Most programs start by binding their variables: otherwise half of all generated programs can only end in the
+    NameError of their first read and exercise nothing behind it.  The rest keeps possibly-unbound variables."""
+    if rnd.random() >= prob:
+        return []
+    keep = [nm for nm in names if rnd.random() < 0.9]
+    return [b.node(kind='assign', fn=1, tgt=[nm], e=b.T([rnd.choice(['a', 'b'])] if rnd.random() < 0.5 else [])) for nm in keep]
+
+
 class RandomGen:
     """Seeded random programs of the effectful profile (class C01/C05 depending on flags)."""
 
     def __init__(self, rnd, maxdepth=3, loop_else=False, maxfns=3, ifexp=True, exprstmt=True, dele=True,
-                 try_=True, with_=True, calls=True, names=None, hnames=True, directives=True, contexts=None, lam_rate=0.08):
+                 try_=True, with_=True, calls=True, names=None, hnames=True, directives=True, contexts=None, lam_rate=0.08,
+                 def_rate=0.0, call_rate=0.0, closure_bias=False, init=0.7):
         self.contexts = CONTEXTS if contexts is None else contexts
+        self.init = init                # probability that the program starts by assigning its variables
         self.lam_rate = lam_rate        # share of statements that store / call a lambda value
+        self.def_rate = def_rate        # extra share of statements that define / call a nested function (closure profile)
+        self.call_rate = call_rate
+        self.closure_bias = closure_bias    # nested functions mostly read / rebind the enclosing function's variables
         self.hnames = hnames
         self.directives = directives
         self.r = rnd
@@ -348,6 +362,12 @@ class RandomGen:
             if self.cx.callable_lams(b, fn) and self.r.random() < 0.6:
                 return self.cx.lambda_call(b, fn, scope, allow_return=not infinally)
             return self.cx.lambda_stmt(b, fn, scope)
+        if self.calls and self.def_rate and depth <= 1 and len(b.fns) < self.maxfns and self.r.random() < self.def_rate:
+            return self.def_stmt(fn, scope, depth)
+        if self.calls and self.call_rate and self.r.random() < self.call_rate:
+            c = self.call_stmt(fn, scope, infinally)
+            if c:
+                return c
         if r < 0.26 or deep:
             return b.node(kind='assign', fn=fn, tgt=[self.r.choice(self.names)], e=self.value(scope))
         if r < 0.30 and self.exprstmt:
@@ -397,29 +417,42 @@ class RandomGen:
         if r < 0.935 and self.dele:
             return b.node(kind='del', fn=fn, tgt=[self.r.choice(self.names)])
         if r < 0.965 and depth <= 1 and len(b.fns) < self.maxfns and self.calls:
-            np_ = self.r.choice([0, 1, 1, 2])
-            params = ['p', 'q'][:np_]
-            fid = b.fn('g%d' % (len(b.fns) + 1), params, fn)
-            b.fns[fid - 1]['nonlocals'] = self.r.sample(self.names, self.r.randint(0, 1))
-            b.fns[fid - 1]['body'] = self.block(fid, scope + params, depth + 1, False, False)
-            nd = b.node(kind='def', fn=fn, name=b.fns[fid - 1]['name'], f=fid)
-            if self.contexts:
-                self.cx.decorate_def(b, nd, scope)
-            return nd
+            return self.def_stmt(fn, scope, depth)
         if len(b.fns) > 1 and self.calls:
-            cands = [f for f in range(2, len(b.fns) + 1) if b.fns[f - 1]['parent'] == fn]
-            if cands:
-                f = self.r.choice(cands)
-                form = self.r.choice(['assign', 'assign', 'expr'] + ([] if infinally else ['return']))
-                args = [self.r.choice(scope) for _ in b.fns[f - 1]['params']]
-                return b.node(kind='call', fn=fn, name=b.fns[f - 1]['name'], form=form, args=args,
-                              tgt=[self.r.choice(self.names)] if form == 'assign' else [])
+            c = self.call_stmt(fn, scope, infinally)
+            if c:
+                return c
         return b.node(kind='pass', fn=fn)
+
+    def def_stmt(self, fn, scope, depth):
+        b = self.b
+        np_ = self.r.choice([0, 1, 1, 2])
+        params = ['p', 'q'][:np_]
+        fid = b.fn('g%d' % (len(b.fns) + 1), params, fn)
+        b.fns[fid - 1]['nonlocals'] = self.r.sample(self.names, self.r.choice([0, 1, 1, 2]) if self.closure_bias else self.r.randint(0, 1))
+        inner = (self.names * 3 + params) if self.closure_bias else scope + params
+        b.fns[fid - 1]['body'] = self.block(fid, inner, depth + 1, False, False)
+        nd = b.node(kind='def', fn=fn, name=b.fns[fid - 1]['name'], f=fid)
+        if self.contexts:
+            self.cx.decorate_def(b, nd, scope)
+        return nd
+
+    def call_stmt(self, fn, scope, infinally):
+        b = self.b
+        cands = [f for f in range(2, len(b.fns) + 1) if b.fns[f - 1]['parent'] == fn]
+        if not cands:
+            return None
+        f = self.r.choice(cands)
+        form = self.r.choice(['assign', 'assign', 'expr'] + ([] if infinally else ['return']))
+        args = [self.r.choice(scope) for _ in b.fns[f - 1]['params']]
+        return b.node(kind='call', fn=fn, name=b.fns[f - 1]['name'], form=form, args=args,
+                      tgt=[self.r.choice(self.names)] if form == 'assign' else [])
 
     def program(self, lo=2, hi=4):
         b = self.b
         b.fn('f', ['a', 'b'], 0)
-        b.fns[0]['body'] = self.block(1, self.names + ['a', 'b'], 0, False, lo=lo, hi=hi)
+        body = self.block(1, self.names + ['a', 'b'], 0, False, lo=lo, hi=hi)
+        b.fns[0]['body'] = initial_assignments(b, self.r, self.names, self.init) + body
         return b.finish()
 
 
